@@ -5,23 +5,41 @@ and the bookkeeping of the command counter: a computation that returns normally 
 -/
 namespace CashewsVerif.TxFault
 
-/-! ### `RBody`: the counter only grows, the backends' data is untouched -/
+/-! ### `RBody`: the counter only grows, the backends' data is untouched, and no command that could touch it is even SENT
+(every newly logged command is a read, a `set_lock` or an `unlock`) -/
 
-def RBody (w w' : FWorld) : Prop := w.counter ≤ w'.counter ∧ w'.data = w.data
+def RBody (w w' : FWorld) : Prop :=
+  w.counter ≤ w'.counter ∧ w'.data = w.data ∧ ∀ ev, ev ∈ w'.log → ev ∈ w.log ∨ ev.cmd.noData
 
 theorem RBody.pre : Pre RBody :=
-  ⟨fun _ => ⟨Nat.le_refl _, rfl⟩, fun h1 h2 => ⟨Nat.le_trans h1.1 h2.1, h2.2.trans h1.2⟩⟩
+  ⟨fun _ => ⟨Nat.le_refl _, rfl, fun _ h => Or.inl h⟩,
+   fun h1 h2 => ⟨Nat.le_trans h1.1 h2.1, h2.2.1.trans h1.2.1, fun ev h =>
+     match h2.2.2 ev h with
+     | Or.inl h' => h1.2.2 ev h'
+     | Or.inr h' => Or.inr h'⟩⟩
+
+/-- a step that touches neither counter, data nor log -/
+theorem RBody.same {w w' : FWorld} (hc : w'.counter = w.counter) (hd : w'.data = w.data) (hl : w'.log = w.log) :
+    RBody w w' := ⟨by rw [hc]; exact Nat.le_refl _, hd, fun _ h => Or.inl (hl ▸ h)⟩
 
 theorem backendCmd_RBody (cfg : Cfg) (b : Nat) (c : BCmd) (hc : c.noData) : Rel RBody (backendCmd cfg b c) := by
   intro w
   cases hf : cfg.fails w.counter
   · rw [backendCmd_ok cfg b c w hf]
-    exact ⟨by simp [applyCmd_counter, logged], by simp [applyCmd_data _ _ _ hc, logged]⟩
+    refine ⟨by simp [applyCmd_counter, logged], by simp [applyCmd_data _ _ _ hc, logged], fun ev h => ?_⟩
+    simp only [applyCmd_log, logged, List.mem_append, List.mem_singleton] at h
+    rcases h with h | rfl
+    · exact Or.inl h
+    · exact Or.inr hc
   · rw [backendCmd_fail cfg b c w hf]
-    exact ⟨by simp [logged], rfl⟩
+    refine ⟨by simp [logged], rfl, fun ev h => ?_⟩
+    simp only [logged, List.mem_append, List.mem_singleton] at h
+    rcases h with h | rfl
+    · exact Or.inl h
+    · exact Or.inr hc
 
 theorem modB_RBody (b : Nat) (f : TxB → TxB) : Rel RBody (modB b f) :=
-  Rel.modW _ fun _ => ⟨Nat.le_refl _, rfl⟩
+  Rel.modW _ fun _ => RBody.same rfl rfl rfl
 
 /-- structural steps of a relational proof; the leaves are left to the caller -/
 macro "rel_steps" h:term : tactic => `(tactic| repeat' (first
@@ -38,7 +56,7 @@ theorem lockLoop_RBody (cfg : Cfg) (b lk : Nat) (n : Nat) : Rel RBody (lockLoop 
     all_goals first
       | exact backendCmd_RBody _ _ _ trivial
       | exact modB_RBody _ _
-      | exact Rel.modW _ fun _ => ⟨Nat.le_refl _, rfl⟩
+      | exact Rel.modW _ fun _ => RBody.same rfl rfl rfl
       | exact ih
 
 theorem lockUpdates_RBody (cfg : Cfg) (b k : Nat) : Rel RBody (lockUpdates cfg b k) := by
@@ -60,7 +78,7 @@ theorem txSet_RBody (cfg : Cfg) (b k : Nat) (v : Int) (ttl : Option Nat) : Rel R
   rel_steps RBody.pre
   exact lockUpdates_RBody _ _ _
 
-theorem txIncr_RBody (cfg : Cfg) (b k : Nat) : Rel RBody (txIncr cfg b k) := by
+theorem txIncr_RBody (cfg : Cfg) (b k : Nat) (ttl : Option Nat) : Rel RBody (txIncr cfg b k ttl) := by
   unfold txIncr wrap
   simp only [bind_eq, pure_eq]
   rel_steps RBody.pre
@@ -99,18 +117,40 @@ theorem txDelMany_RBody (cfg : Cfg) (b : Nat) (ks : List Nat) : Rel RBody (txDel
   rel_steps RBody.pre
   all_goals first | exact lockAll_RBody _ _ _ | exact modB_RBody _ _
 
-theorem emit_RBody (r : Reply) : Rel RBody (emit r) := Rel.modW _ fun _ => ⟨Nat.le_refl _, rfl⟩
+theorem txExists_RBody (cfg : Cfg) (b k : Nat) : Rel RBody (txExists cfg b k) := by
+  unfold txExists
+  simp only [bind_eq, pure_eq]
+  rel_steps RBody.pre
+  all_goals first | exact modB_RBody _ _ | exact backendCmd_RBody _ _ _ trivial
+
+theorem txSetIf_RBody (cfg : Cfg) (b k : Nat) (v : Int) (ttl : Option Nat) (ex : Bool) :
+    Rel RBody (txSetIf cfg b k v ttl ex) := by
+  unfold txSetIf wrap
+  simp only [bind_eq, pure_eq]
+  rel_steps RBody.pre
+  all_goals first | exact modB_RBody _ _ | exact lockUpdates_RBody _ _ _ | exact backendCmd_RBody _ _ _ trivial
+
+/-- `expire` inside a transaction sends only a READ to the backend: the store keeps value and deadline until commit -/
+theorem txExpire_RBody (cfg : Cfg) (b k ttl : Nat) : Rel RBody (txExpire cfg b k ttl) := by
+  unfold txExpire wrap
+  simp only [bind_eq, pure_eq]
+  rel_steps RBody.pre
+  all_goals first | exact modB_RBody _ _ | exact lockUpdates_RBody _ _ _ | exact backendCmd_RBody _ _ _ trivial
+
+theorem emit_RBody (r : Reply) : Rel RBody (emit r) := Rel.modW _ fun _ => RBody.same rfl rfl rfl
 
 theorem bodyStep_RBody (cfg : Cfg) (c : BodyCmd) : Rel RBody (bodyStep cfg c) := by
   cases c <;> unfold bodyStep <;> simp only [bind_eq]
   · exact Rel.bind RBody.pre (txSet_RBody _ _ _ _ _) fun _ => emit_RBody _
-  · exact Rel.bind RBody.pre (txIncr_RBody _ _ _) fun _ => emit_RBody _
+  · exact Rel.bind RBody.pre (txIncr_RBody _ _ _ _) fun _ => emit_RBody _
   · exact Rel.bind RBody.pre (txGet_RBody _ _ _) fun _ => emit_RBody _
   · exact Rel.bind RBody.pre (txDelete_RBody _ _ _) fun _ => emit_RBody _
-  · exact Rel.modW _ fun _ => ⟨Nat.le_refl _, rfl⟩
+  · exact Rel.modW _ fun _ => RBody.same rfl rfl rfl
   · exact Rel.throw RBody.pre _
   · exact Rel.bind RBody.pre (txSetMany_RBody _ _ _ _) fun _ => emit_RBody _
   · exact Rel.bind RBody.pre (txDelMany_RBody _ _ _) fun _ => emit_RBody _
+  · exact Rel.bind RBody.pre (txExpire_RBody _ _ _ _) fun _ => emit_RBody _
+  · exact Rel.bind RBody.pre (txSetIf_RBody _ _ _ _ _ _) fun _ => emit_RBody _
 
 theorem runBody_RBody (cfg : Cfg) (body : List BodyCmd) : Rel RBody (runBody cfg body) := by
   induction body with
@@ -143,7 +183,7 @@ theorem txRollback_RBody (cfg : Cfg) (ts : List TxB) : Rel RBody (txRollback cfg
   rw [txRollback_snd]
   exact rollbackList_RBody cfg ts w
 
-theorem close_RBody : Rel RBody close := Rel.modW _ fun _ => ⟨Nat.le_refl _, rfl⟩
+theorem close_RBody : Rel RBody close := Rel.modW _ fun _ => RBody.same rfl rfl rfl
 
 /-- leaving the block after a failed body: rollback, then `close()` -/
 theorem aexit_exc_RBody (cfg : Cfg) : Rel RBody (aexit cfg true) := by
@@ -243,7 +283,7 @@ theorem txSet_Clean (cfg : Cfg) (b k : Nat) (v : Int) (ttl : Option Nat) : Clean
   clean_steps
   all_goals first | exact modB_Clean _ _ _ | exact lockUpdates_Clean _ _ _
 
-theorem txIncr_Clean (cfg : Cfg) (b k : Nat) : Clean cfg (txIncr cfg b k) := by
+theorem txIncr_Clean (cfg : Cfg) (b k : Nat) (ttl : Option Nat) : Clean cfg (txIncr cfg b k ttl) := by
   unfold txIncr wrap
   simp only [bind_eq, pure_eq]
   clean_steps
@@ -282,18 +322,39 @@ theorem txDelMany_Clean (cfg : Cfg) (b : Nat) (ks : List Nat) : Clean cfg (txDel
   clean_steps
   all_goals first | exact modB_Clean _ _ _ | exact lockAll_Clean _ _ _
 
+theorem txExists_Clean (cfg : Cfg) (b k : Nat) : Clean cfg (txExists cfg b k) := by
+  unfold txExists
+  simp only [bind_eq, pure_eq]
+  clean_steps
+  all_goals exact modB_Clean _ _ _
+
+theorem txSetIf_Clean (cfg : Cfg) (b k : Nat) (v : Int) (ttl : Option Nat) (ex : Bool) :
+    Clean cfg (txSetIf cfg b k v ttl ex) := by
+  unfold txSetIf wrap
+  simp only [bind_eq, pure_eq]
+  clean_steps
+  all_goals first | exact modB_Clean _ _ _ | exact lockUpdates_Clean _ _ _ | exact txExists_Clean _ _ _
+
+theorem txExpire_Clean (cfg : Cfg) (b k ttl : Nat) : Clean cfg (txExpire cfg b k ttl) := by
+  unfold txExpire wrap
+  simp only [bind_eq, pure_eq]
+  clean_steps
+  all_goals first | exact modB_Clean _ _ _ | exact lockUpdates_Clean _ _ _
+
 theorem emit_Clean (cfg : Cfg) (r : Reply) : Clean cfg (emit r) := Clean.modW _ fun _ => rfl
 
 theorem bodyStep_Clean (cfg : Cfg) (c : BodyCmd) : Clean cfg (bodyStep cfg c) := by
   cases c <;> unfold bodyStep <;> simp only [bind_eq]
   · exact Clean.bind (txSet_Clean _ _ _ _ _) fun _ => emit_Clean _ _
-  · exact Clean.bind (txIncr_Clean _ _ _) fun _ => emit_Clean _ _
+  · exact Clean.bind (txIncr_Clean _ _ _ _) fun _ => emit_Clean _ _
   · exact Clean.bind (txGet_Clean _ _ _) fun _ => emit_Clean _ _
   · exact Clean.bind (txDelete_Clean _ _ _) fun _ => emit_Clean _ _
   · exact Clean.modW _ fun _ => rfl
   · exact Clean.throw _
   · exact Clean.bind (txSetMany_Clean _ _ _ _) fun _ => emit_Clean _ _
   · exact Clean.bind (txDelMany_Clean _ _ _) fun _ => emit_Clean _ _
+  · exact Clean.bind (txExpire_Clean _ _ _ _) fun _ => emit_Clean _ _
+  · exact Clean.bind (txSetIf_Clean _ _ _ _ _ _) fun _ => emit_Clean _ _
 
 theorem runBody_Clean (cfg : Cfg) (body : List BodyCmd) : Clean cfg (runBody cfg body) := by
   induction body with
